@@ -2,10 +2,12 @@
 from . import driver, stubs_hash, stubs_big, stubs_chacha
 
 def with_c(ex, case):
+    from . import stubs_ecdsa
     ex.llvm = driver.get_llvm()
     stubs_hash.install(ex)
     stubs_big.install(ex)
     stubs_chacha.install(ex)
+    stubs_ecdsa.install(ex)
 
 _DKG = {}
 
